@@ -739,11 +739,14 @@ async def sdp_case(case, r: R):
             # classify: is the surplus list the selection of a record that does not match?
             wantset = {h for h, _ in want_lists}
             extra_records = []
+            want_u = {rs.uuid128(s_, v_) for s_, v_ in t['pattern']}
             for gl in bad_lists:
-                for h, attrs in records.items():
-                    if h not in wantset and cmp_attr_list(gl, rs.select(attrs, t['ids'])) is None:
-                        extra_records.append(h)
-                        break
+                # several records may select to the same list: prefer one holding part of the pattern
+                cands = [h for h, attrs in records.items()
+                         if h not in wantset and cmp_attr_list(gl, rs.select(attrs, t['ids'])) is None]
+                cands.sort(key=lambda h: not (want_u & rs.record_uuids(records[h])))
+                if cands:
+                    extra_records.append(cands[0])
             if bad_lists and len(extra_records) == len(bad_lists):
                 cls = search_mismatch_class(records, t['pattern'], extra_records, [])
             elif not bad_lists and unmatched:
@@ -1061,15 +1064,15 @@ def judge_deliveries(r, proto, delivered, items, faults_used, basic_broken=False
             seen_broken.add(bi)
             continue
         ok = False
-        if d in want[:pos]:
-            r.bad(f'{proto}/assembler/delivered-twice/after-{fault}', f'{str(d)[:120]} delivered again')
-        elif d in want[pos:]:
+        if d in want[pos:]:
             k = want.index(d, pos)
             lost = want[pos]
             lost_item = next(it for it in items if it[1] and it[0] == lost)
             r.bad(lost_key(lost_item[2]),
                   f'good message #{pos} ({lost[:-1]}, {len(lost[-1])} payload bytes) never delivered (fault: {fault})')
             pos = k + 1
+        elif d in want[:pos]:
+            r.bad(f'{proto}/assembler/delivered-twice/after-{fault}', f'{str(d)[:120]} delivered again')
         else:
             r.bad(f'{proto}/assembler/corrupt-delivery/after-{fault}',
                   f'delivered {str(d[:-1])} with {len(d[-1])} payload bytes, which is none of the messages fed')
@@ -1110,6 +1113,7 @@ def avdtp_asm_history(rng, r: R, force_fault=None, basic_broken=False):
     items, fed, used = [], [], set()
     broken_at = rng.randrange(0, nitems - 1) if fault != 'none' else -1
     raised = 0
+    label0 = rng.randrange(16)
 
     def feed(p):
         nonlocal raised
@@ -1121,7 +1125,7 @@ def avdtp_asm_history(rng, r: R, force_fault=None, basic_broken=False):
 
     for i in range(nitems):
         broken = i == broken_at or (fault != 'none' and i < nitems - 1 and i != broken_at + 1 and rng.random() < 0.15)
-        label = rng.randrange(16)
+        label = (label0 + i) % 16        # distinct within a history
         if broken or rng.random() < 0.6:
             n = rng.choice([2 * (mtu - 3) + rng.randint(1, mtu), rng.randint(min(1900, 2 * mtu), min(2000, 6 * mtu)),
                             3 * (mtu - 1) - 2 + rng.choice([-1, 0, 1])])
@@ -1199,6 +1203,7 @@ def avctp_history(rng, r: R, force_fault=None, basic_broken=False):
     items, used, fed = [], set(), []
     broken_at = rng.randrange(0, nitems - 1) if fault != 'none' else -1
     raised = 0
+    label0 = rng.randrange(16)
 
     def feed(p):
         nonlocal raised
@@ -1210,7 +1215,7 @@ def avctp_history(rng, r: R, force_fault=None, basic_broken=False):
 
     for i in range(nitems):
         broken = i == broken_at
-        label = rng.randrange(16)
+        label = (label0 + i) % 16        # distinct within a history
         cr = rng.randrange(2)
         pid = rng.choice([0x110E, 0x110C, 0x0000, 0xFFFF, rng.getrandbits(16)])
         n = rng.choice([0, 1, 2, 3, 7, 508, 509, 512, 1500, rng.randint(0, 1500), rng.randint(0, 1500)])
